@@ -678,8 +678,8 @@ func CheckC18(p *Pkg, e *Env, r *res.Result) {
 			path := p.BasePath + concretePath(op.Template)
 			ia.Reset()
 			ib.Reset()
-			reca, pa := ia.Serve(httptest.NewRequest(op.Method, "http://h.example"+path, nil))
-			recb, pb := ib.Serve(httptest.NewRequest(op.Method, "http://h.example"+path, nil))
+			reca, pa := ia.Serve(httptest.NewRequest(op.Method, "http://h.example"+escapeForURL(path), nil))
+			recb, pb := ib.Serve(httptest.NewRequest(op.Method, "http://h.example"+escapeForURL(path), nil))
 			ia.Respond, ib.Respond = nil, nil
 			rep := map[string]any{"response.txt": fmt.Sprintf("%+v", va.Interface())}
 			switch {
